@@ -267,3 +267,32 @@ def t_echo(*args, **kwargs):
 
 
 TARGETS['t_echo'] = t_echo
+
+
+def t_gilhold():
+    """models a C extension call that never releases the interpreter lock: no thread of this process runs any more
+    (python-level signal handlers cannot run), default-disposition signals still kill"""
+    truth('target-enter', fn='t_gilhold')
+    s = cur_sim()
+    me = s.me()
+    me.proc.state = 'gilheld'
+    s.fault('gil-hold')
+    s.ev('gil-hold', me.proc.name)
+    s.yield_('gil-hold', deliver=False)
+    return 'unreachable'
+
+
+def t_sigstop():
+    """the process gets SIGSTOPped (by somebody else) while running the target"""
+    truth('target-enter', fn='t_sigstop')
+    s = cur_sim()
+    me = s.me()
+    s.fault('sigstop')
+    s.stop_proc(me.proc)
+    s.yield_('stopped', deliver=False)
+    time.sleep(1000.0)
+    return 'continued'
+
+
+TARGETS['t_gilhold'] = t_gilhold
+TARGETS['t_sigstop'] = t_sigstop
